@@ -325,6 +325,35 @@ func runC01(c *core.Ctx) {
 		})
 	}
 
+	// a transport handed out as an io.Writer bypasses the queue / write lock just as a direct Write does
+	for _, fn := range p.Funcs {
+		rel := p.PkgRel(fn)
+		if rel == "transport" || len(rel) > 10 && rel[:10] == "transport/" {
+			continue
+		}
+		core.AllInstrs(fn, func(in ssa.Instruction) {
+			ci, ok := in.(*ssa.ChangeInterface)
+			if !ok || !e.isTransportType(ci.X.Type()) {
+				return
+			}
+			it, ok := ci.Type().Underlying().(*types.Interface)
+			if !ok {
+				return
+			}
+			hasWrite := false
+			for i := 0; i < it.NumMethods(); i++ {
+				if it.Method(i).Name() == "Write" {
+					hasWrite = true
+				}
+			}
+			if !hasWrite {
+				return
+			}
+			c.Instance("R3")
+			c.Bad("R3", "transport-as-writer/"+p.QName(fn), p.InstrPos(in), "the channel's transport is handed out as an io.Writer: writes through it bypass the write queue, the write lock and the flush after each write")
+		})
+	}
+
 	// ---- R4
 	runC01R4(c, e)
 
